@@ -2,21 +2,10 @@
 /// the predictor state as far as prediction depends on it: an abstract hash-chain state, the pending lazy match, the
 /// token counter, the input position
 pub struct PV { pub hv: int, pub pending: Option<PreflateTokenReference>, pub count: u32, pub pos: int }
-/// what stays fixed during a run: the plaintext and the parameters
-pub struct Env { pub text: Seq<u8>, pub p: TokenPredictorParameters }
-
 // A-DET: the unverified prediction machinery is a function of (chain state, plaintext, position, parameters)
 pub uninterp spec fn sp_update(hv: int, len: u32, e: Env, pos: int) -> int;
 pub uninterp spec fn sp_predict(hv: int, pending: Option<PreflateTokenReference>, e: Env, pos: int) -> (PreflateToken, Option<PreflateTokenReference>);
 pub uninterp spec fn sp_match0(hv: int, prev_len: u32, max_depth: u32, e: Env, pos: int) -> MatchResult;
-pub uninterp spec fn sp_hops(hv: int, len: u32, dist: u32, e: Env, pos: int) -> Option<u32>;
-pub uninterp spec fn sp_hop_match(hv: int, len: u32, hops: u32, e: Env, pos: int) -> Option<u32>;
-
-/// A-HOP (ASSUMED; DESIGN 9): hop_match inverts calculate_hops on the same chain -- both walk `hash.iterate(input, 0)`
-/// and count the candidates whose first `len` bytes match; calculate_hops returns the count at the target distance
-/// (at least 1, at most 0xffff), hop_match returns the distance of the candidate with that count
-pub axiom fn axiom_hop_inverse(hv: int, len: u32, dist: u32, e: Env, pos: int)
-    ensures sp_hops(hv, len, dist, e, pos) matches Some(h) ==> 1 <= h <= 0xffff && sp_hop_match(hv, len, h, e, pos) == Some(dist);
 
 pub open spec fn m_lpw() -> int { CodecMisprediction::LiteralPredictionWrong as int }
 pub open spec fn m_rpw() -> int { CodecMisprediction::ReferencePredictionWrong as int }
@@ -113,7 +102,9 @@ pub open spec fn block_ops(v: PV, e: Env, b: PreflateTokenBlock, last: bool) -> 
 pub open spec fn tok_in_text(text: Seq<u8>, pos: int, t: PreflateToken) -> bool {
     match t {
         PreflateToken::Literal(l) => 0 <= pos < text.len() && text[pos] == l,
-        PreflateToken::Reference(r) => 0 < pos && pos + ref_len(r) <= text.len() && (r.irregular258 ==> ref_len(r) == 258) && 1 <= r.dist <= 32768,
+        PreflateToken::Reference(r) => 0 < pos && pos + ref_len(r) <= text.len() && (r.irregular258 ==> ref_len(r) == 258) && 1 <= r.dist <= 32768
+            // an LZ77 reference: it points into the text before it and the bytes it denotes are there
+            && r.dist <= pos && ref_matches(text, pos, r.dist as int, ref_len(r) as int),
     }
 }
 pub open spec fn toks_pos(pos: int, ts: Seq<PreflateToken>) -> int
